@@ -5,7 +5,7 @@ from ..scn import Pat, seg, term, stub, tup, Rng
 class Check(ParCheck):
     prop = 'C12'
     theorems = ['slotTaken_applyAction', 'C12_single_use_linear', 'C12_at_most_one_delivery', 'C12_multi_use_intact',
-                'C12_typestate_value_level', 'C12_composite_single_use']
+                'C12_typestate_value_level', 'C12_composite_single_use', 'C12_nonclone_quantified_once_only', 'run_nonclone']
 
     def rule(self):
         return ("scenarios: a single-use response (some_call/next_call .returns(v) unquantified or .once(), also as the first "
@@ -44,6 +44,9 @@ class Check(ParCheck):
         # single-use and repeatable paths, compared with the Output model (theorem C17_once, imported by Props/C12)
         from .c17 import Check as C17
         C17().explore(rep, only_paths=None, merge=True, prop=self.prop)
+        # compile-time half: the builder refuses to quantify a non-Clone value for more than one use
+        from .. import tscheck
+        tscheck.report(self, rep, tier, 'C12')
 
     def judge(self, name, r, seqs):
         j = super().judge(name, r, seqs)
